@@ -273,6 +273,17 @@ def _feed(inst, data, rng, style):
             except Exception:
                 pass
             calls.append("apply")
+        if pos and rng.random() < 0.12:
+            # a refused call (wrong feature dimension, vector or tensor) must leave the statistics as they were
+            Fb = int(rng.choice([1, F + 1, F + 2])) if F > 1 else F + int(rng.integers(1, 3))
+            bad = np.ones((int(rng.integers(1, 4)), Fb)) * 7.0 if rng.random() < 0.7 else np.ones(Fb) * 7.0
+            if rng.random() < 0.3 and bad.ndim == 2:
+                bad = bad.reshape(1, bad.shape[0], Fb)
+            try:
+                inst.accumulate(bad)
+            except Exception:
+                pass
+            calls.append("refused")
         kind = style if style != "mixed" else str(rng.choice(["vec", "t2", "t2T", "t3", "t3mid"]))
         left = N - pos
         if kind == "vec" or left == 1:
